@@ -19,6 +19,7 @@ from vf.simloop import OWNER
 
 TOPIC = "t"
 GROUP = "g19"
+HANG_FACTOR = 4          # a stop() still pending after HANG_FACTOR x B_stop (+ horizon + 20 s) is called "never returns"
 WORKLOADS = ["producer", "group_consumer", "simple_consumer"]
 CLUSTER_STATES = ["healthy", "healthy", "refuse", "blackhole", "failover", "restored", "refuse_listed", "blackhole_listed"]
 
@@ -297,7 +298,7 @@ def run_history(P):
         H["bound"] = bound
         # wait for stop() to be issued and to return (or 10 x bound)
         try:
-            await asyncio.wait_for(asyncio.shield(stop_done), P["horizon"] + 20.0 + 10 * bound)
+            await asyncio.wait_for(asyncio.shield(stop_done), P["horizon"] + 20.0 + HANG_FACTOR * bound)
         except asyncio.TimeoutError:
             H["stop"]["hung"] = True
         if not H["stop"]:
@@ -373,8 +374,8 @@ def judge(H):
     if s.get("t_ret") is None or s.get("hung"):
         V.append((f"stop_never_returns:{P['workload']}:{'unreachable' if P['cluster'] in ('refuse', 'blackhole') else ('unreachable_but_listed' if P['cluster'].endswith('_listed') else P['cluster'])}"
                   + (":idempotent" if P["workload"] == "producer" and P["idempotent"] else ""),
-                  f"[{cls}] stop() issued at t={s.get('t_call')} (event {s.get('event')}) had not returned after 10 x bound "
-                  f"({10 * H.get('bound', 0):.0f}s virtual)", detail))
+                  f"[{cls}] stop() issued at t={s.get('t_call')} (event {s.get('event')}) had not returned after {HANG_FACTOR} x bound "
+                  f"({HANG_FACTOR * H.get('bound', 0):.0f}s virtual)", detail))
         return V, st
     dur = s["t_ret"] - s["t_call"]
     st["max_stop_duration_ms"] = int(dur * 1000)
